@@ -82,10 +82,18 @@ def query(c, t):
         y = c.create_instance(pauli_str="XYZ")
         x[0] = "Z"; y[1] = "I"
         return f"{type(x).__name__}:{x}:{y}:{','.join(names(c))}"
+    if k == "x.gen":
+        # gen_generators() is advanced a few steps for its side effects only: WHICH alternative generator sets come first follows
+        # the enumeration order of the canonical graphs (a set), and "same algebra" is judged by the library by name; what C10
+        # demands is that this read-only call leaves every later answer alone (the battery is asked again afterwards)
+        import itertools as _it
+        k_ = sum(1 for _g in _it.islice(c.gen_generators(), 4))
+        return "advanced"
+    if k == "x.algtext": return str(c.get_algebra())
     if k == "x.list": return ";".join(f"{a}-{b}:{i}:{j}" for a, b, i, j in sorted((str(a), str(b), i, j) for a, b, i, j in c.list_connections()))
     raise KeyError(k)
 
-XBATTERY = ["x.iter", "x.repr", "x.size", "x.add", "x.mul", "x.inst", "x.list"]
+XBATTERY = ["x.iter", "x.repr", "x.size", "x.add", "x.mul", "x.inst", "x.list", "x.gen", "x.algtext"]
 
 def edit(c, t):
     """returns the collection to continue with (a new object for `copy`)"""
@@ -251,10 +259,19 @@ def evaluate(line: str):
                 return why
             if len(set(len(s) for s in after)) > 1:
                 return f"edit {':'.join(t)} left strings of different lengths {after}"
+            # cheap sweep after EVERY edit: each member (and one absent string) is looked up on the edited object and on a fresh one
+            fr = fresh_of(c)
+            probes = list(dict.fromkeys(after))[:10] + (["Y" * len(after[0])] if after else [])
+            for m in probes:
+                for q in ("q.find", "q.index"):
+                    a, b = guard(lambda: query(c, [q, m])), guard(lambda: query(fr, [q, m]))
+                    if a != b:
+                        return (f"after {';'.join(':'.join(x) for x in ops[:k + 1])}: {q[2:]}({m}) on the edited collection {after} answers {a}, "
+                                f"a freshly built collection with the same strings answers {b}")
         for o, snap in originals:
             if names(o) != snap:
                 return f"after {':'.join(t)} on a copy, the original changed from {snap} to {names(o)}"
-    for q in BATTERY + XBATTERY + BATTERY[:5]:
+    for q in BATTERY + XBATTERY + BATTERY:
         why = cmp_query(c, [q], "at the end of the history")
         if why:
             return why
